@@ -178,6 +178,9 @@ func (req *GetBlockRequest) Validate() error {
 }
 
 func parseGetBlockRequest(raw *json.RawMessage) (*GetBlockRequest, error) {
+	if raw == nil {
+		return nil, fmt.Errorf("params are missing")
+	}
 	var params []any
 	if err := fasterJson.Unmarshal(*raw, &params); err != nil {
 		return nil, fmt.Errorf("failed to unmarshal params: %w", err)
@@ -322,6 +325,9 @@ func isAnyEncodingOf(s solana.EncodingType, anyOf ...solana.EncodingType) bool {
 }
 
 func parseGetTransactionRequest(raw *json.RawMessage) (*GetTransactionRequest, error) {
+	if raw == nil {
+		return nil, fmt.Errorf("params are missing")
+	}
 	var params []any
 	if err := fasterJson.Unmarshal(*raw, &params); err != nil {
 		return nil, fmt.Errorf("failed to unmarshal params: %w", err)
@@ -667,6 +673,9 @@ func encodeBytesResponseBasedOnWantedEncoding(
 }
 
 func parseGetBlockTimeRequest(raw *json.RawMessage) (uint64, error) {
+	if raw == nil {
+		return 0, fmt.Errorf("params are missing")
+	}
 	var params []any
 	if err := fasterJson.Unmarshal(*raw, &params); err != nil {
 		return 0, fmt.Errorf("failed to unmarshal params: %w", err)
